@@ -3,6 +3,7 @@ CONSTANTS
   RoutingKeysLast = TRUE
   ReplicaUsesRowDb = TRUE
   CsvFallsThrough = FALSE
+  TypedKeepsFirstM = FALSE
   MaxDecoys = 2
   AllPairs = TRUE
   Emit = TRUE
